@@ -652,6 +652,46 @@ fn late_preimage_same_hash_probe(_a: &mut Vec<i128>) -> String {
 	format!("{}", n)
 }
 
+/// filter_block_probe <dependent_input_position 0/1/2>
+/// A block with two transactions is shown to the real `filter_block` of a live monitor: A spends the channel's
+/// funding output (watched), B has two inputs, one of which (position 0 or 1; 2 = neither) spends an output of A.
+/// Output: 1 if A is selected, 1 if B is selected (a transaction depending on a matched one in the same block must be).
+fn filter_block_probe(a: &mut Vec<i128>) -> String {
+	use bitcoin::{absolute::LockTime, transaction::Version, Amount, OutPoint, ScriptBuf, Sequence, Transaction, TxIn, TxOut, Witness};
+	use bitcoin::hashes::Hash;
+	let pos = a[0];
+	let chanmon_cfgs = create_chanmon_cfgs(2);
+	let node_cfgs = create_node_cfgs(2, &chanmon_cfgs);
+	let node_chanmgrs = create_node_chanmgrs(2, &node_cfgs, &[None, None]);
+	let nodes = create_network(2, &node_cfgs, &node_chanmgrs);
+	let chan = create_announced_chan_between_nodes(&nodes, 0, 1);
+	let chan_id = chan.2;
+	let funding = chan.3;
+	let funding_vout = funding.output.iter().position(|o| o.value.to_sat() == 100_000).unwrap_or(0) as u32;
+	let txin = |op: OutPoint| TxIn { previous_output: op, script_sig: ScriptBuf::new(), sequence: Sequence::MAX, witness: Witness::new() };
+	let txout = |v: u64| TxOut { value: Amount::from_sat(v), script_pubkey: ScriptBuf::new() };
+	let tx_a = Transaction {
+		version: Version::TWO,
+		lock_time: LockTime::ZERO,
+		input: vec![txin(OutPoint { txid: funding.compute_txid(), vout: funding_vout })],
+		output: vec![txout(50_000), txout(40_000)],
+	};
+	let unrelated = |n: u8| OutPoint { txid: bitcoin::Txid::from_byte_array([n; 32]), vout: 0 };
+	let dep = OutPoint { txid: tx_a.compute_txid(), vout: 1 };
+	let inputs = match pos {
+		0 => vec![txin(dep), txin(unrelated(7))],
+		1 => vec![txin(unrelated(7)), txin(dep)],
+		_ => vec![txin(unrelated(7)), txin(unrelated(8))],
+	};
+	let tx_b = Transaction { version: Version::TWO, lock_time: LockTime::ZERO, input: inputs, output: vec![txout(30_000)] };
+	let mon = nodes[0].chain_monitor.chain_monitor.get_monitor(chan_id).unwrap();
+	let sel = lightning::chain::channelmonitor::verif_hooks::filter_block_probe(&mon, &[tx_a.clone(), tx_b.clone()]);
+	let res = format!("{} {}", sel.contains(&tx_a.compute_txid()) as u8, sel.contains(&tx_b.compute_txid()) as u8);
+	drop(mon);
+	core::mem::forget(nodes);
+	res
+}
+
 fn main() {
 	if std::env::var("ORACLE_DEBUG").is_err() { std::panic::set_hook(Box::new(|_| {})); }
 	let stdin = std::io::stdin();
@@ -680,6 +720,7 @@ fn main() {
 			"commitment_signed_probe" => commitment_signed_probe(&mut args),
 			"preimage_after_conf_reorg_probe" => preimage_after_conf_reorg_probe(&mut args),
 			"late_preimage_same_hash_probe" => late_preimage_same_hash_probe(&mut args),
+			"filter_block_probe" => filter_block_probe(&mut args),
 			_ => format!("error unknown function {}", name),
 		}));
 		match r {
